@@ -34,3 +34,4 @@ PROPERTY A_C02_StartAfterSubmit
 PROPERTY A_C03_OutcomeStable
 PROPERTY A_C17_OnlyNew
 INVARIANT A_C19_ExactlyOnce
+INVARIANT A_C01_Returns
